@@ -1166,7 +1166,13 @@ class _WireReader:
                     deleting,
                     empty,
                 ) = self.message._parse_special_rr_header(
-                    section_number, count, i, name, rdclass, rdtype
+                    # OPT and TSIG owner names are never relative to the origin
+                    section_number,
+                    count,
+                    i,
+                    absolute_name,
+                    rdclass,
+                    rdtype,
                 )
             else:
                 rdclass, rdtype, deleting, empty = self.message._parse_rr_header(
